@@ -26,6 +26,7 @@ import NomtModel.Driver.OpenPathMode
 import NomtModel.Driver.BtTreeMode
 import NomtModel.Driver.IoPoolMode
 import NomtModel.Driver.StageGlueMode
+import NomtModel.Driver.PushChunkMode
 /-!
 `nomt_model`: the executable Lean model behind a line protocol.
 First argument selects the sub-protocol; stdin → stdout, one output line per input line.
@@ -51,6 +52,7 @@ def main (args : List String) : IO UInt32 := do
   | ["wal"] => walLoop stdin stdout; return 0
   | ["ovl"] => loop stdin stdout ovlStep {}; return 0
   | ["bitops"] => loop stdin stdout bitopsStep (); return 0
+  | ["pushchunk"] => loop stdin stdout pushchunkStep (); return 0
   | ["seglog"] => loop stdin stdout SegD.seglogStep {}; return 0
   | ["triepos"] => loop stdin stdout trieposStep none; return 0
   | ["shards"] => loop stdin stdout shardsStep {}; return 0
